@@ -53,6 +53,10 @@ def queries(obj):
         return run
 
     q["is_inside"] = with_arg(lambda o, p: o.is_inside(p), pts)
+    # ... with one point given as a 1-d array, and with an array the shape itself handed out (its centroid): value, shape and layout of
+    # the caller's array are the caller's
+    q["is_inside(one point, 1-d)"] = with_arg(lambda o, p: o.is_inside(p), lambda o: pts(o)[1].copy())
+    q["is_inside(its own centroid array)"] = with_arg(lambda o, p: o.is_inside(p), lambda o: o.centroid)
     # drawing is a query too (non-default arguments included): matplotlib with the off-screen backend
     if cls in ("Polygon", "ConvexPolygon", "Polyhedron", "ConvexPolyhedron") and _have_mpl():
         def plotter(o, a, kw):
@@ -226,8 +230,8 @@ def run(chk):
                 if not same:
                     chk.violation("state-changed", dict(desc, attribute=why)); continue
                 for arr, cp in args:
-                    if not np.array_equal(arr, cp):
-                        chk.violation("argument-array-modified", dict(desc, before=cp.tolist(), after=arr.tolist())); break
+                    if arr.shape != cp.shape or arr.dtype != cp.dtype or not np.array_equal(arr, cp):
+                        chk.violation("argument-array-modified", dict(desc, before=cp.tolist(), after=arr.tolist(), shape_before=list(cp.shape), shape_after=list(arr.shape))); break
                 for n, (ref, cp) in held.items():
                     if not arrays_same(ref, cp, tol):
                         chk.violation("handed-out-array-modified", dict(desc, array=n,
